@@ -82,7 +82,7 @@ def run_after_solver(spec, out):
             out.count("solver_runs_raised")
             out.count("raised:" + type(e).__name__)
         generic = 0
-        for x in pts:
+        for x in pts[::-1]:  # (newest first: the very point the run evaluated last is the first one asked for afterwards)
             if name == "ackley" and np.linalg.norm(x) < 0.5:
                 continue
             if name == "griewank" and np.any(np.cos(x / np.sqrt(np.arange(1, n + 1))) == 0.0):
